@@ -2,7 +2,9 @@
 """Run /verif checks against the seeded breaking changes in /verif/seeded/<id>/.
 
     python3 tools/seeded.py                 # all seeded changes, quick tier of the property's check
-    python3 tools/seeded.py <id> [--tier thorough] [--props C04,C05]
+    python3 tools/seeded.py <id> [--tier thorough] [--props C04,C05] [--jobs 4] [--tests]
+    python3 tools/seeded.py --dir controls [...]   # the harmless rewrites in /verif/controls/<id>/:
+                                                    # here the expected verdict is OK (exit 0)
 
 Each change is applied to a scratch git worktree of /repo under /tmp (never to /repo),
 the demonstration is run on the clean and on the changed tree, the check(s) run with
@@ -70,6 +72,16 @@ def main():
     if "--tests" in args:
         TESTS = True
         args.remove("--tests")
+    global SEEDED
+    jobs = 1
+    if "--dir" in args:
+        i = args.index("--dir")
+        SEEDED = os.path.join(HERE, args[i + 1])
+        del args[i:i + 2]
+    if "--jobs" in args:
+        i = args.index("--jobs")
+        jobs = int(args[i + 1])
+        del args[i:i + 2]
     tier = "quick"
     props = None
     ids = []
@@ -87,11 +99,12 @@ def main():
     if not ids:
         ids = sorted(x for x in os.listdir(SEEDED) if os.path.isdir(os.path.join(SEEDED, x)))
     results = []
-    for sid in ids:
-        r = run_one(sid, tier, props)
-        results.append(r)
-        print(json.dumps(r))
-        sys.stdout.flush()
+    from concurrent.futures import ThreadPoolExecutor
+    with ThreadPoolExecutor(jobs) as ex:
+        for r in ex.map(lambda sid: run_one(sid, tier, props), ids):
+            results.append(r)
+            print(json.dumps(r))
+            sys.stdout.flush()
     path = os.path.join(SEEDED, "RESULTS.json")
     old = {}
     if os.path.exists(path):
